@@ -1023,3 +1023,31 @@ Proof.
   - now rewrite map_length, enum_from_length.
   - intros k x H. erewrite map_nth_error by (apply enum_from_nth_error; exact H). reflexivity.
 Qed.
+
+(* ---------- a job on a subset / reordering of the partitions *)
+Lemma subset_job_lemma plans f (r sel : rdd) :
+  incl sel r -> transient_plans plans sel ->
+  run_job plans f sel =
+    (Ok (map (fun ip => f (fst ip) (snd ip)) sel),
+     flat_map (fun ip => repeat (fst ip) (S (fails_before (plans (fst ip))))) sel) /\
+  (forall ip, In ip sel -> In (fst ip, f (fst ip) (snd ip)) (map_partitions_with_index f r)).
+Proof.
+  intros Hincl Ht. split.
+  - rewrite run_job_transient by exact Ht. unfold glom, map_partitions_with_index. now rewrite map_map.
+  - intros ip Hin. unfold map_partitions_with_index.
+    apply (in_map (fun ip0 => (fst ip0, f (fst ip0) (snd ip0)))). apply Hincl. exact Hin.
+Qed.
+
+Lemma uid_subset_lemma (r sel : rdd) j i p k x :
+  incl sel r -> nth_error sel j = Some (i, p) -> nth_error p k = Some x ->
+  exists ps q, fst (run_job (fun _ => []) (zip_uid_part (num_partitions r)) sel) = Ok ps /\
+    nth_error ps j = Some q /\
+    nth_error q k = Some (VTup [x; VInt (Z.of_nat k * num_partitions r + i)]).
+Proof.
+  intros Hincl Hj Hk.
+  destruct (subset_job_lemma (fun _ => []) (zip_uid_part (num_partitions r)) r sel Hincl) as (E & _).
+  { intros i' p' _. cbn. unfold max_retries. lia. }
+  rewrite E. cbn [fst]. eexists. eexists. split; [reflexivity|split].
+  - erewrite map_nth_error by exact Hj. reflexivity.
+  - cbn [fst snd]. now apply uid_part_nth.
+Qed.
